@@ -159,6 +159,9 @@ type syncState struct {
 	hash    uint64
 	vc      vclock // released by Unlock / Once completion / Done / atomic or shared access
 	rvc     vclock // released by RUnlock
+	// Aux is private data of a shim built on this object (the contents of a sync.Pool or sync.Map); it lives and
+	// dies with the execution, like everything else here.
+	Aux any
 }
 
 type timerState struct {
